@@ -64,10 +64,16 @@ Print Assumptions C07_token_bounds.
    - statement.rs use: `file_stem().unwrap()`, `.to_str().unwrap()`, `file.parent().unwrap()`: path strings, outside
      the token-level model ([last_component] is total); guarded for identifiers as the tokenizer produces them
      (non-empty, no '/' or '.'), the path "/" alone being rejected just before.
-   - NOT guarded: Context::comments_since_last_statement computes `self.curr - self.last_statement`; the loop arm's
-     prev() can leave curr below last_statement (`if true do loop do break end end`): overflow-checked builds
-     panic there, release builds wrap (and read the first `end` twice).  The model has no last_statement and
-     follows the release build; reported as a finding (C14 probe loop-body-end-then-end-on-one-line). *)
+   - Context::comments_since_last_statement computes `self.curr - self.last_statement` (overflow-checked builds
+     panic when it is negative, release builds wrap).  The model has NO last_statement field: the theorems below
+     are about the release build's arithmetic.  Until /repo 6634c32 the subtraction could go negative
+     (`if true do loop do break end end`: the loop arm's prev() stepped back over the body's `end`).  Since that
+     fix the only context that is moved BACK and handed on is the loop arm's, and only onto a newline which the
+     statement's own expect!(Newline) consumes again; [C07_loop_prev_returns] proves that this lands exactly
+     on the context where the body ended (so `curr - last_statement` is 0 there); every other hand-over is a
+     skip() forward.  The overflow-checked build itself is exercised by the thorough tier of tools/props/c07.py
+     (compile on a sample of every input class and all hand-written inputs, and the parser alone against the
+     model). *)
 From Sylt Require Import Syntax.Tok Syntax.Ast Parse.PrecTable Parse.Parser Parse.ParserTotal.
 From Sylt Require Gen.GenPrec.
 
@@ -125,6 +131,14 @@ Theorem C07_parser_accepts_whole_input : forall (T : ptab) (ts : list tok) (f : 
   parse_program T f ts = Ok (ss, c) -> token c = TEOF.
 Proof. intros T ts f ss c. apply parse_program_ok_at_end. Qed.
 
+(* the loop arm after /repo 6634c32: the body ended at c3 (a context as skip() and a pop to "newlines count"
+   leave it); if the token before it is the newline, expect!(Newline) from there returns c3 itself *)
+Theorem C07_loop_prev_returns : forall (n : nat) (c0 cp : ctx),
+  let c3 := pop_nl false (skip n c0) in
+  pre c3 <> [] -> over c3 = 0 -> prev c3 = Some cp -> is_k KNewline cp = true ->
+  expect KNewline cp = Ok c3.
+Proof. exact loop_prev_returns. Qed.
+
 (* non-vacuity: `x :: 1⏎` is accepted, `x ::⏎z⏎y ::⏎` gives two errors (the parser recovered at a line
    break and went on), and with too little fuel the model does report [Fuel] - the bound is doing work *)
 Example C07_parser_total_witness :
@@ -148,6 +162,7 @@ Print Assumptions C07_parser_fuel_linear.
 Print Assumptions C07_parser_entries_total.
 Print Assumptions C07_settled_spec.
 Print Assumptions C07_parser_accepts_whole_input.
+Print Assumptions C07_loop_prev_returns.
 Print Assumptions C07_parser_total_witness.
 
 (* ---------------------------------------------------------------------------------------------- *)
